@@ -53,7 +53,7 @@ def run(tier):
     # (2) closure
     closure(chk, F)
     # (3) purity
-    purity(chk, F.bodies.values(), F)
+    purity(chk, [b for b in F.bodies.values() if not facts.binding_layer(b["path"])], F)
     purity_positive_control(chk)
     chk.floor("DualNum trait items", chk.analysed.get("DualNum trait items", 0), 36)
     chk.floor("bodies scanned for shared mutable state", chk.analysed.get("bodies scanned for shared mutable state", 0), 1400)
